@@ -33,7 +33,7 @@ type actor struct {
 }
 
 func NewController() *Controller {
-	c := &Controller{byGID: map[int64]*actor{}, byName: map[string]*actor{}, Timeout: 3 * time.Second}
+	c := &Controller{byGID: map[int64]*actor{}, byName: map[string]*actor{}, Timeout: 8 * time.Second}
 	c.notifier = &actor{name: "notifier", arrive: make(chan string, 4), release: make(chan struct{}, 1)}
 	return c
 }
@@ -117,6 +117,9 @@ func (c *Controller) point(name, key string) {
 	}
 	if name == "srv.before-sendbody" && a.lastPark == "close.enter" {
 		return // Close failed without publishing (no notify): the re-open attempt belongs to the close step
+	}
+	if name == "delete.before-remove" && a.lastPark == "srv.before-sendbody" {
+		return // the written file could not be re-opened: errCleanup belongs to the sendBody step
 	}
 	if name == "delete.before-remove" && a.lastPark == "close.enter" {
 		return // Delete from inside a failing Close: part of the close step
